@@ -61,8 +61,18 @@ type FuncSpec struct {
 	File      string
 	Line      int
 	Lets      []LetSpec
+	Uses      []UseSpec
+	IsLemma   bool
 	NoSafety  bool
 	Terminate bool
+}
+
+// UseSpec invokes a lemma at a site: use name(args) at site.
+type UseSpec struct {
+	Call string
+	At   string
+	File string
+	Line int
 }
 
 // LetSpec names a spec expression (evaluated at function entry).
@@ -105,7 +115,75 @@ var clauseKeywords = map[string]bool{
 	"func": true, "extern": true, "type": true, "global": true, "axiom": true, "requires": true, "ensures": true,
 	"modifies": true, "decreases": true, "loop": true, "invariant": true, "ghost": true, "assert": true,
 	"calls": true, "pure": true, "trusted": true, "returns_elem": true, "opaque": true, "let": true, "nosafety": true,
-	"package": true, "field": true, "terminates": true,
+	"package": true, "field": true, "terminates": true, "macro": true, "lemma": true, "use": true,
+}
+
+// Macro is a textual abbreviation usable in contract expressions: macro NAME(a, b) = body.
+type Macro struct {
+	Name   string
+	Params []string
+	Body   string
+}
+
+var macros = map[string]*Macro{}
+
+var identRe = regexp.MustCompile(`[A-Za-z_][A-Za-z0-9_]*`)
+
+// expandMacros substitutes macro applications (innermost arguments first), up to a fixed depth.
+func expandMacros(s string) string {
+	for depth := 0; depth < 40; depth++ {
+		changed := false
+		for _, loc := range identRe.FindAllStringIndex(s, -1) {
+			name := s[loc[0]:loc[1]]
+			m, ok := macros[name]
+			if !ok || loc[1] >= len(s) || s[loc[1]] != '(' {
+				continue
+			}
+			if loc[0] > 0 && (s[loc[0]-1] == '.' ) {
+				continue
+			}
+			// balanced argument list
+			d := 0
+			end := -1
+			for i := loc[1]; i < len(s); i++ {
+				if s[i] == '(' {
+					d++
+				} else if s[i] == ')' {
+					d--
+					if d == 0 {
+						end = i
+						break
+					}
+				}
+			}
+			if end < 0 {
+				break
+			}
+			args := splitTopCommas(s[loc[1]+1 : end])
+			if len(m.Params) == 0 {
+				args = nil
+			}
+			if len(args) != len(m.Params) {
+				break
+			}
+			body := m.Body
+			body = identRe.ReplaceAllStringFunc(body, func(id string) string {
+				for i, p := range m.Params {
+					if p == id {
+						return "(" + strings.TrimSpace(args[i]) + ")"
+					}
+				}
+				return id
+			})
+			s = s[:loc[0]] + "(" + body + ")" + s[end+1:]
+			changed = true
+			break
+		}
+		if !changed {
+			return s
+		}
+	}
+	return s
 }
 
 var labelRe = regexp.MustCompile(`^@([A-Za-z0-9_.\-]+)\s+`)
@@ -175,9 +253,26 @@ func (cs *Contracts) ParseFile(path string) error {
 			cs.AssumeScan = append(cs.AssumeScan, fmt.Sprintf("%s:%d: %s %s", shortPath(path), rc.line, rc.kw, rc.rest))
 		}
 		switch rc.kw {
+		case "macro":
+			fs := strings.SplitN(rc.rest, "=", 2)
+			if len(fs) != 2 {
+				return fmt.Errorf("%s:%d: macro needs NAME(params) = body", path, rc.line)
+			}
+			head := strings.TrimSpace(fs[0])
+			k := strings.Index(head, "(")
+			if k < 0 || !strings.HasSuffix(head, ")") {
+				return fmt.Errorf("%s:%d: macro head", path, rc.line)
+			}
+			m := &Macro{Name: head[:k], Body: strings.TrimSpace(fs[1])}
+			for _, p := range strings.Split(head[k+1:len(head)-1], ",") {
+				if p = strings.TrimSpace(p); p != "" {
+					m.Params = append(m.Params, p)
+				}
+			}
+			macros[m.Name] = m
 		case "package":
 			pkg = rc.rest
-		case "func", "extern":
+		case "func", "extern", "lemma":
 			hdr := rc.rest
 			if rc.kw == "extern" {
 				hdr = strings.TrimSpace(strings.TrimPrefix(hdr, "func"))
@@ -197,7 +292,10 @@ func (cs *Contracts) ParseFile(path string) error {
 				fpkg = qpkg
 			}
 			key := funcKey(fpkg, fd)
-			curF = &FuncSpec{Key: key, Pkg: fpkg, Header: hdr, Decl: fd, Extern: rc.kw == "extern", Props: props, Loops: map[int]*LoopSpec{}, Calls: map[string][]string{}, File: path, Line: rc.line}
+			if rc.kw == "lemma" {
+				key = fpkg + ".lemma." + fd.Name.Name
+			}
+			curF = &FuncSpec{Key: key, Pkg: fpkg, Header: hdr, Decl: fd, Extern: rc.kw == "extern", IsLemma: rc.kw == "lemma", Props: props, Loops: map[int]*LoopSpec{}, Calls: map[string][]string{}, File: path, Line: rc.line}
 			if rc.kw == "extern" {
 				curF.Trusted = true
 			}
@@ -311,6 +409,14 @@ func (cs *Contracts) ParseFile(path string) error {
 					st = strings.TrimSpace(st[:k])
 				}
 				curF.Ghosts = append(curF.Ghosts, GhostStmt{Stmt: st, At: at, File: path, Line: rc.line})
+			case "use":
+				at := "exit"
+				st := rc.rest
+				if k := strings.LastIndex(st, " at "); k >= 0 {
+					at = strings.TrimSpace(st[k+4:])
+					st = strings.TrimSpace(st[:k])
+				}
+				curF.Uses = append(curF.Uses, UseSpec{Call: st, At: at, File: path, Line: rc.line})
 			case "assert":
 				at := "exit"
 				st := rc.rest
@@ -499,7 +605,7 @@ func splitTopCommas(s string) []string {
 
 // ParseSpecExpr parses a contract expression (Go syntax + ==>).
 func ParseSpecExpr(s string) (ast.Expr, error) {
-	r := splitImpliesDeep(s)
+	r := splitImpliesDeep(expandMacros(s))
 	e, err := parser.ParseExpr(r)
 	if err != nil {
 		return nil, fmt.Errorf("spec expr %q: %v", s, err)
